@@ -784,20 +784,16 @@ mod vec_proofs {
     use super::*;
     // small variants for the std configuration (FixedBitSet + Vec<Waker> are heavy): children
     // do not wake from inside a poll, wake-ups come from the fire phase only
-    crate::proof!(join_vec2_r2_quiet, 6, {
+    crate::proof!(join_vec2_r2_quiet, 4, {
         let s = run_fut_opts::<VecJoin<2>>(2, false, 0);
         witness(&s);
     });
-    crate::proof!(tryjoin_vec2_r2_quiet, 6, {
+    crate::proof!(tryjoin_vec2_r2_quiet, 4, {
         let s = run_fut_opts::<VecTryJoin<2>>(2, false, 0);
         witness(&s);
     });
-    crate::proof!(xjoin_vec2_r3_u3, 3, {
-        let s = run_fut::<VecJoin<2>>(3, false);
-        witness(&s);
-    });
-    crate::proof!(xjoin_vec2_r3_u4, 4, {
-        let s = run_fut::<VecJoin<2>>(3, false);
+    crate::proof!(join_vec2_r3_quiet, 4, {
+        let s = run_fut_opts::<VecJoin<2>>(3, false, 0);
         witness(&s);
     });
     crate::proof!(join_vec2_r3, 6, {
